@@ -3,6 +3,7 @@
 mod bufstream;
 mod cmp;
 mod fmtstream;
+mod mutstream;
 mod reprs;
 mod tree;
 mod util;
@@ -16,6 +17,7 @@ fn main() {
         "cmp-one" => cmp::one(rest),
         "fmt" => fmtstream::run(rest),
         "buf" => bufstream::run(rest),
+        "mut" => mutstream::run(rest),
         _ => {
             eprintln!("harness: unknown mode {:?}", mode);
             2
